@@ -98,3 +98,14 @@ Print Assumptions C12_poi_index_is_slice_start.
 Print Assumptions C12_accepted_poi_index.
 Print Assumptions C12_poi_refusal.
 Print Assumptions C12_poi_example_index.
+
+(* ---- tie to the source: _ChannelSummaryMixin.__init__ of pyhf/mixins.py translated to Gallina on every run (coq/gen/ConfigGen.v, written by
+   harness/props/c12_tie.py; the reading of the python values is stated in the header of that file) computes the configuration lists of the
+   model: the sorted duplicate-free channel / sample / (modifier name, type) lists, channel_nbins (the last channel listed under a name counts)
+   and channel_slices (running sum over the sorted channels) ---- *)
+Require Import PV.gen.ConfigGen PV.TieConfig.
+Theorem C12_source_is_model_channel_summary : forall N (sp : spec N),
+  gen_channel_summary N (channels sp) =
+  (cfg_channels N sp, cfg_samples N sp, cfg_modifiers N sp, map (fun c => (c, nbins N sp c)) (cfg_channels N sp), channel_slices N sp).
+Proof. exact tie_channel_summary. Qed.
+Print Assumptions C12_source_is_model_channel_summary.
